@@ -103,19 +103,82 @@ bulk_fixed!(c11x_bulk_uninit, |mem, lo, cap| {
     w
 }, no_extra);
 
-// @h props=C11,C12 tier=quick group=bulk note=Chain<&mut[u8],&mut[u8]>_bulk_symbolic_split
-bulk_fixed!(c11x_bulk_chain, |mem, lo, cap| {
+// @h props=C11,C12,C02 tier=quick group=bulk note=Chain<&mut[u8],&mut[u8]>_bulk_symbolic_split_non-adjacent_halves
+#[kani::proof]
+#[kani::unwind(6)]
+#[kani::stub(core::slice::index::slice_index_fail, stub_slice_index_fail)]
+pub fn c11x_bulk_chain() {
+    // the two halves are windows of SEPARATE guard arrays: a bulk write that runs over the end of the first half's chunk (e.g. a
+    // fill of the whole remaining count at the first chunk) hits a guard byte instead of landing in the second half
+    let mut ma = [G; N];
+    let mut mb = [G; N];
+    let lo = 1usize;
+    let cap = any_len(5);
     let split = any_len(5);
     kani::assume(split <= cap);
-    let (a, b) = mem[lo..lo + cap].split_at_mut(split);
-    a.chain_mut(b)
-}, |w: &bytes::buf::Chain<&mut [u8], &mut [u8]>, cap: usize, wrote: usize| {
-    // C12: conservation across the two halves (that a is filled before b follows from the memory check of the
-    // harness: the two windows are adjacent and the bytes must appear consecutively from the start of a)
-    let total = wrote + if cap - wrote > 0 { 1 } else { 0 };
-    assert!(w.first_ref().len() + w.last_ref().len() + total == cap);
-    assert!(w.last_ref().len() == cap - w.first_ref().len() - total);
-});
+    let (src, sl) = any_src();
+    let val: u8 = kani::any();
+    let cnt = any_len(3);
+    let op: u8 = kani::any();
+    kani::assume(op < 3);
+    let wrote;
+    let tail;
+    {
+        let a: &mut [u8] = &mut ma[lo..lo + split];
+        let b: &mut [u8] = &mut mb[lo..lo + (cap - split)];
+        let mut w = a.chain_mut(b);
+        check_mut_state(&mut w, cap);
+        match op {
+            0 => {
+                kani::assume(sl <= cap);
+                w.put_slice(&src[..sl]);
+                wrote = sl;
+            }
+            1 => {
+                kani::assume(cnt <= cap);
+                w.put_bytes(val, cnt);
+                wrote = cnt;
+            }
+            _ => {
+                kani::assume(sl <= cap);
+                let sb = SymBuf::<3> { data: src, len: sl, pos: 0, cuts: kani::any(), advances: 0 };
+                w.put(sb);
+                wrote = sl;
+            }
+        }
+        check_mut_state(&mut w, cap - wrote);
+        tail = cap - wrote > 0;
+        if tail {
+            w.put_u8(0x5A);
+        }
+        // C12: conservation across the two halves; a is filled before b
+        let total = wrote + if tail { 1 } else { 0 };
+        assert!(w.first_ref().len() + w.last_ref().len() + total == cap);
+        let in_a = if total < split { total } else { split };
+        assert!(w.first_ref().len() == split - in_a);
+        assert!(w.last_ref().len() == (cap - split) - (total - in_a));
+    }
+    let total = wrote + if tail { 1 } else { 0 };
+    let in_a = if total < split { total } else { split };
+    let in_b = total - in_a;
+    if total > 0 {
+        let i = any_below(total);
+        let got = if i < in_a { ma[lo + i] } else { mb[lo + i - in_a] };
+        let exp = if i == wrote { 0x5A } else if op == 1 { val } else { src[i] };
+        assert!(got == exp);
+    }
+    let g = any_below(N);
+    if g < lo || g >= lo + in_a {
+        assert!(ma[g] == G);
+    }
+    if g < lo || g >= lo + in_b {
+        assert!(mb[g] == G);
+    }
+    kani::cover!(op == 2 && wrote == 3, "put(Buf) of three bytes");
+    kani::cover!(op == 1 && split > 0 && split < cnt, "put_bytes straddling the two halves");
+    kani::cover!(op == 0 && wrote == cap && wrote > 0, "put_slice filling the target exactly");
+    end_reached!();
+}
 
 // @h props=C11,C12 tier=quick group=bulk note=Limit<&mut[u8]>_bulk_symbolic_limit
 #[kani::proof]
@@ -252,6 +315,34 @@ pub fn c11x_bulk_forwarding() {
     if g < lo || g >= lo + sl_total {
         assert!(inner.mem[g] == G);
     }
+    end_reached!();
+}
+
+// @h props=C11,C02 tier=quick group=bulk timeout=900 note=default_put_bytes/put_slice_through_&mut_Vec_and_Box<Vec>_with_less_spare_capacity_than_the_write
+#[kani::proof]
+#[kani::unwind(6)]
+#[kani::stub(core::slice::index::slice_index_fail, stub_slice_index_fail)]
+pub fn c11x_bulk_forwarding_growable() {
+    // `&mut B` / `Box<B>` forward chunk_mut / advance_mut / put_slice but NOT put_bytes: the provided loop runs over the Vec's
+    // chunks.  Spare capacity (2) is smaller than the fill (3): the first chunk must receive exactly two bytes.
+    fn fill_via<B: BufMut>(mut b: B, val: u8, n: usize, also: &[u8]) {
+        b.put_bytes(val, n);
+        b.put_slice(also);
+    }
+    let mut v: Vec<u8> = Vec::with_capacity(4);
+    v.push(G);
+    v.push(G);
+    let val: u8 = kani::any();
+    let also: [u8; 1] = [0x5A];
+    if kani::any() {
+        fill_via(&mut v, val, 3, &also);
+    } else {
+        let b: Box<&mut Vec<u8>> = Box::new(&mut v);
+        fill_via(b, val, 3, &also);
+    }
+    assert!(v.len() == 6);
+    assert!(v[0] == G && v[1] == G && v[5] == 0x5A);
+    assert!(v[2 + any_below(3)] == val);
     end_reached!();
 }
 
